@@ -19,6 +19,8 @@ type Server struct {
 	store     storage.Store   // Mail store.
 	listener  net.Listener    // TCP listener.
 	wg        *sync.WaitGroup // Waitgroup tracking sessions.
+	mu        sync.Mutex      // Orders Drain against the accept loop's registration in Start.
+	draining  bool            // Drain has begun; a Start arriving later must not begin to serve.
 	notify    chan error      // Notify on fatal error.
 	tlsConfig *tls.Config     // TLS encryption configuration.
 	tlsState  *tls.ConnectionState
@@ -70,8 +72,17 @@ func (s *Server) Start(ctx context.Context, readyFunc func()) {
 	}
 
 	// Start listener go routine.  It is tracked by the WaitGroup so that Drain also waits for
-	// the accept loop to end, and sessions are only ever added while it is counted.
+	// the accept loop to end, and sessions are only ever added while it is counted.  Shutdown may
+	// overtake start-up (a signal, or another service failing to start): if Drain has already
+	// begun, registering now would race with its Wait, and nothing should start being served.
+	s.mu.Lock()
+	if s.draining {
+		s.mu.Unlock()
+		_ = s.listener.Close()
+		return
+	}
 	s.wg.Add(1)
+	s.mu.Unlock()
 	go func() {
 		defer s.wg.Done()
 		s.serve(ctx)
@@ -132,6 +143,9 @@ func (s *Server) serve(ctx context.Context) {
 
 // Drain causes the caller to block until all active POP3 sessions have finished
 func (s *Server) Drain() {
+	s.mu.Lock()
+	s.draining = true
+	s.mu.Unlock()
 	// Wait for sessions to close
 	log.Debug().Str("module", "pop3").Str("phase", "shutdown").Msg("waiting for connections to complete.")
 	s.wg.Wait()
